@@ -103,7 +103,7 @@ def run_case(case):
         for sub in ("attitude", "rates"):
             points.append((f"/metadata/attitude/{sub}#time", lambda s=sub: tree[f"metadata/attitude/{s}"]["time"].values[0], 1000))
         points.append(("/metadata/platform_position@datetime_of_first_point", lambda: tree["metadata/platform_position"].attrs["datetime_of_first_point"], 10 ** (6 - dec)))
-        points.append(("/metadata/dataset_summary@scene_center_time", lambda: tree["metadata/dataset_summary"].attrs["scene_center_time"], 1000))
+        points.append(("/metadata/dataset_summary@scene_center_time", lambda: tree["metadata/dataset_summary"].attrs["scene_center_time"], 10 ** (6 - inst.get("frac_digits", 3))))
         points.append(("/@creation_datetime", lambda: tree.attrs["creation_datetime"], 10_000))
         points.append(("/summary/image_information@SceneCenterDateTime", lambda: tree["summary/image_information"].attrs["SceneCenterDateTime"], 1000))
         for where, getter, res in points:
